@@ -396,6 +396,11 @@ def check_must_reject(cx, chk, R="C15.restrict", only=None):
     for row in acc:
         if only and not any(o in row[0] for o in only):
             continue
+        if len(row) > 2 and "PANICKED" in row[2]:
+            chk.violation(R, "panicked %s" % row[0],
+                          "the grammar %s breaks a documented restriction (%s) and makes the compiler PANIC instead of returning an error"
+                          % (row[1] if len(row) > 1 else row[0], row[0].replace("_", " ")))
+            continue
         chk.violation(R, "accepted %s" % row[0],
                       "the grammar %s breaks a documented restriction (%s) and is ACCEPTED: the compiler has to reject it with an error - what it "
                       "generates instead does not compile or does not mean what the grammar says" % (row[1] if len(row) > 1 else row[0], row[0].replace("_", " ")))
